@@ -63,12 +63,16 @@ type c15Case struct {
 	After int    `json:"after_failed_write,omitempty"` // first, this many writes into a too-short buffer are attempted (they panic; the caller recovers)
 }
 
+// c15Val: n bytes of text that mixes ASCII with VALID multi-byte UTF-8 (2-, 3- and 4-byte characters; a character cut by
+// the length limit leaves an invalid tail, which is legal string content too).
 func c15Val(n, salt int) string {
-	b := make([]byte, n)
-	for i := range b {
-		b[i] = byte(0x21 + (i+salt*7)%90)
+	const unit = "aé服😀z"
+	b := make([]byte, 0, n+16)
+	for i := 0; len(b) < n; i++ {
+		b = append(b, byte(0x21+(i+salt*7)%90))
+		b = append(b, unit[(i+salt)%len(unit):]...)
 	}
-	return string(b)
+	return string(b[:n])
 }
 
 const nocopyThreshold = 4096
